@@ -16,20 +16,29 @@ RULE = ("dense<->sparse: all shapes with <= 8 cells (exhaustive) + seeded random
         "orders {sorted,reversed,random}; non-trivial = more than one cell and at least one nonzero; distinct = distinct (op,args); "
         "matricisation: every ordered partition of the modes into (rdims, cdims) for N<=4 (either side may be empty) + seeded sample "
         "for N=5, the rdims-only / cdims-only / fc / bc / t request forms, dense and sparse (sparsity {0,1,some,all}, stored orders "
-        "{sorted,reversed,random}); Kruskal ranks 0..3 on shapes <= 5 modes / 96 cells; Tucker cores <= 2x2x2x2 (dense and sparse "
-        "core); sums of 1..4 parts of mixed kinds; a malformed stream of non-partitions")
+        "{sorted,reversed,random}; the stored triples of the sptenmat are compared one by one, in stored order, with the transliterated "
+        "unique + accumulate model); Kruskal ranks 0..3 on shapes <= 5 modes / 96 cells (1-way included); Tucker cores <= 2x2x2x2 "
+        "(dense and sparse core; dense cores also against the transliterated permute/reshape/matmul ttm); sums of 1..4 parts of mixed "
+        "kinds; a malformed stream of non-partitions; constructor streams tenmat(data, rdims, cdims, tshape) and sptenmat(subs, vals, "
+        "rdims, cdims, tshape): every argument form, repeated positions, cancelling and explicit zeros, shuffled orders, and malformed "
+        "requests (non-partitions, out-of-range modes and indices, wrong element count, 1-d / 3-d / empty data, regrouped matrix "
+        "shapes) — the guard model must predict accept / reject / empty and the accepted object must convert back and forth as the "
+        "model does; from_array of dense matrices and of scipy matrices given as raw triples (shuffled, split positions, stored zeros)")
 CORRESPONDENCE_ONLY = [
-    "sptenmat.from_array (dense matrix / scipy coo input) against to_sptenmat of the denoted tensor",
-    "sptensor.spmatrix and sptenmat.double (scipy coo_matrix observed through .toarray())",
-    "tenmat.double, ktensor.double, ttensor.double, sumtensor.double (same arrays as full(), observed raw)",
-    "ktensor.to_tenmat (= full().to_tenmat)",
-    "tensor.ttm as used by ttensor.full: the theorem is about the mode-by-mode product defined on subscripts (Model/C01Conv.v "
-    "ttm_mode), tied to pyttb's permute/reshape/matmul implementation by correspondence only (C02 owns ttm)",
-    "stored order of sptenmat triples (the constructor sorts them with np.unique; the model keeps the source order and the "
-    "comparison is on shape, denotation, well-formedness and nnz)",
+    "ktensor.double, ttensor.double, sumtensor.double (same arrays as full(), observed raw)",
+    "ktensor.to_tenmat (= full().to_tenmat: each half is a theorem, the composition inside pyttb is observed)",
+    "sptensor.ttm as used by ttensor.full with a SPARSE core (to_sptenmat, scipy product, from_array): the theorem C01_tucker_impl "
+    "covers the dense-core route (tensor.ttm); the sparse route is compared with the same model on generated inputs only",
+    "sptenmat(..., copy=False) (stores the arguments unchecked) and tenmat(..., copy=False) are not modelled",
+    "scipy: coo_matrix construction and toarray() are modelled (positions summed), not verified",
 ]
 ASSUMPTIONS = ["numpy transpose / F-order reshape / scatter / nonzero semantics as defined in Np/Array.v and Model/Sparse.v",
-               "sptenmat constructor on well-formed input only reorders the triples (np.unique + accumarray with no duplicates)"]
+               "np.unique(axis=0, return_inverse=True) orders rows lexicographically (first column most significant) and accumarray(func=sum) "
+               "adds the values of equal rows in stored order: transliterated as insertion into a sorted accumulator (Model/C01Unique.v) "
+               "and validated by the stored-order comparison of every generated sptenmat",
+               "ndarray.nonzero() scans a matrix in row-major order; scipy coo_matrix.toarray() sums the values stored at one position",
+               "constructor arguments are typed as numpy delivers them: subs an nnz x 2 array of non-negative integers, vals nnz values, "
+               "mode lists of non-negative integers (negative indices are outside the nat-valued model)"]
 
 
 def gen_cases(rng, tier):
